@@ -230,7 +230,12 @@ class SparseOracle:
         res, m = self.res, self.m
         if not hasattr(m, "W_") and not hasattr(m, "W_skip_"):
             return
-        if not all(np.all(np.isfinite(w)) for w in m._get_weights()):
+        try:
+            ws = m._get_weights()
+        except AttributeError:
+            res.probe("checkpoints_on_partial_state_skipped")      # an interrupted call left only some of the weights
+            return
+        if not all(np.all(np.isfinite(w)) for w in ws):
             res.probe("checkpoints_with_nonfinite_weights_skipped")
             return
         nz = self.check_selection(kind)
@@ -289,13 +294,18 @@ def execute(record):
         cur_cfg = _copy.deepcopy(cfg)
         oracle.cfg = cur_cfg                 # the user's current hyper-parameters (groups may change along the history)
         pool = [(X, A), second_dataset(cfg)]
+        state_complete = False
         with world, quiet():
             for op in record["ops"]:
                 kind = op["op"]
                 oracle.X = pool[op.get("data", 0)][0]
                 oracle.pre = None
                 outcome = run_generic_op(op, model, world, pool, cur_cfg, res, log)
-                if outcome == "rejected" and kind == "bad_fit":
+                if kind in ("fit", "path", "nan_path", "crash_fit", "crash_path"):
+                    # an interrupted call may leave a partial state (some weights re-initialised, others not): no clause of
+                    # the property speaks about it, and nothing is judged until a training call has completed again
+                    state_complete = (outcome == "ok")
+                if outcome == "rejected" and kind == "bad_fit" and state_complete:
                     # a call REJECTED by validation leaves the estimator as it was: everything "after any fit or path" still
                     # holds for the state of the last completed call
                     oracle.checkpoint("after_rejected_fit")
